@@ -49,6 +49,7 @@ var leanName = map[string]string{} // key recv+"."+name or name
 var impure = map[string]bool{}     // lean name -> returns Res
 var needsFuel = map[string]bool{}
 var aux []string // auxiliary loop definitions for the current function
+var stubs = map[string]string{} // lean name -> stub definition with the signature of the last good translation
 
 // translateError aborts the translation of ONE function (recovered in main): the function is then
 // absent from the generated file and reported as failed in <out>.status.json, so only the properties
@@ -698,6 +699,11 @@ func translate(repo string, fs FuncSpec) string {
 		ret = "Res " + ret
 	}
 	fmt.Fprintf(&sb, "/-- translated from `%s` %s%s -/\n", fs.File, map[bool]string{true: fs.Recv + ".", false: ""}[fs.Recv != ""], fs.Name)
+	// stub with the same signature: used on a later run if this function stops being translatable, so that
+	// everything that depends on it still compiles (its own obligations are reported broken via status.json)
+	stubBody := map[bool]string{true: "Res.panic", false: map[string]string{"UInt64": "0", "Bool": "false", "Version": "0", "Unit": "()"}[c.retTy]}[c.monadic]
+	stubs[fs.Lean] = fmt.Sprintf("/-- STUB: `%s` %s could not be translated on this run (see GoFuns.lean.status.json) -/\ndef %s %s : %s := %s\n",
+		fs.File, fs.Name, fs.Lean, strings.Join(append(append([]string{}, pre...), sig...), " "), ret, stubBody)
 	fmt.Fprintf(&sb, "def %s %s : %s :=", fs.Lean, strings.Join(append(pre, sig...), " "), ret)
 	if c.monadic {
 		sb.WriteString(" do\n")
@@ -742,6 +748,10 @@ func main() {
 	}
 	var defs []string
 	status := map[string]string{}
+	oldStubs := map[string]string{}
+	if b, err := os.ReadFile(os.Args[3] + ".stubs.json"); err == nil {
+		json.Unmarshal(b, &oldStubs)
+	}
 	for _, f := range cfg.Funcs {
 		func() {
 			defer func() {
@@ -753,6 +763,14 @@ func main() {
 					status[f.Lean] = te.msg
 					fmt.Fprintf(os.Stderr, "go2lean: %s NOT translated: %s\n", f.Lean, te.msg)
 					// callers of this function must fail as well, not reference a missing definition
+					if st, ok := oldStubs[f.Lean]; ok {
+						// keep dependents compiling: same signature, body replaced by a default
+						defs = append(defs, st)
+						stubs[f.Lean] = st
+						impure[f.Lean] = strings.Contains(st, ": Res ")
+						needsFuel[f.Lean] = strings.Contains(st, "(fuel : Nat)")
+						return
+					}
 					for k, v := range leanName {
 						if v == f.Lean {
 							delete(leanName, k)
@@ -768,6 +786,11 @@ func main() {
 	}
 	if sj, err := json.MarshalIndent(status, "", " "); err == nil {
 		os.WriteFile(os.Args[3]+".status.json", sj, 0o644)
+	}
+	if sj, err := json.MarshalIndent(stubs, "", " "); err == nil {
+		if old, err := os.ReadFile(os.Args[3] + ".stubs.json"); err != nil || string(old) != string(sj) {
+			os.WriteFile(os.Args[3]+".stubs.json", sj, 0o644)
+		}
 	}
 	var fields []string
 	for f := range specFields {
